@@ -257,7 +257,7 @@ def make_real_keys(n):
     from adb_shell.auth.sign_cryptography import CryptographySigner
     from adb_shell.auth.sign_pycryptodome import PycryptodomeAuthSigner
     from adb_shell.auth.sign_pythonrsa import PythonRSASigner
-    tmp = tempfile.mkdtemp(prefix="verif-c05-", dir="/tmp")
+    tmp = tempfile.mkdtemp(prefix="verif-c05-", dir=os.environ.get("VERIF_TMP", "/tmp"))
     try:
         out = []
         for i in range(n):
